@@ -4,6 +4,7 @@ package main
 // they rest on), generate and discharge all their obligations, report violations, write the evidence file.
 
 import (
+	_ "embed"
 	"regexp"
 	"crypto/sha1"
 	"encoding/json"
@@ -505,6 +506,13 @@ func cmdCheck(args []string) int {
 				break
 			}
 		}
+		if *prop == "C20" && (best == nil || !best.Confirmed) {
+			// the counterexample of a C20 obligation is a behaviour of unknown callees, which the model replay
+			// cannot script: search the scripted-behaviour space for a concrete failing input instead
+			if wr := c20Witness(*repo); wr != nil {
+				best = wr
+			}
+		}
 		var members []string
 		for _, f := range fs {
 			members = append(members, f.ob.Name+": "+f.reason)
@@ -530,9 +538,17 @@ func cmdCheck(args []string) int {
 		violations++
 		h := sha1.Sum([]byte(fe))
 		rp := filepath.Join(*replayDir, fmt.Sprintf("%s-%x.json", *prop, h[:6]))
-		data, _ := json.MarshalIndent(map[string]any{"property": *prop, "obligation": "all obligations of " + fe, "status": "undecided: function outside the verified subset or contract does not apply"}, "", " ")
+		rec := map[string]any{"property": *prop, "obligation": "all obligations of " + fe, "status": "undecided: function outside the verified subset or contract does not apply"}
+		suffix := " no-failing-input-found"
+		if *prop == "C20" {
+			if wr := c20Witness(*repo); wr != nil {
+				rec["replay"] = wr
+				suffix = ""
+			}
+		}
+		data, _ := json.MarshalIndent(rec, "", " ")
 		os.WriteFile(rp, data, 0o644)
-		fmt.Printf("VIOLATION property=%s replay=%s obligation=%q no-failing-input-found\n", *prop, rp, fe)
+		fmt.Printf("VIOLATION property=%s replay=%s obligation=%q%s\n", *prop, rp, fe, suffix)
 	}
 	// expected-count guard
 	exp := loadExpected(*expectFile)
@@ -671,4 +687,39 @@ func smtInt(v string) (*big.Int, bool) {
 	}
 	n, ok := new(big.Int).SetString(v, 10)
 	return n, ok
+}
+
+//go:embed c20witness_test.go.txt
+var c20WitnessSrc string
+
+var c20WitnessMemo struct {
+	done bool
+	res  *ReplayResult
+}
+
+// c20Witness runs the scripted-behaviour search of c20witness_test.go.txt against the real package (once per
+// check) and returns a confirmed replay result when it finds inputs on which a helper reports wrongly, stays
+// silent wrongly or lets a panic escape; nil when it finds none (or cannot run).
+func c20Witness(repo string) *ReplayResult {
+	if c20WitnessMemo.done {
+		return c20WitnessMemo.res
+	}
+	c20WitnessMemo.done = true
+	out, err := runReplayTest(repo, "test", c20WitnessSrc)
+	if err != nil || !strings.Contains(out, "VERIFWITNESSDONE") {
+		return nil
+	}
+	var ws []string
+	for _, ln := range strings.Split(out, "\n") {
+		if strings.HasPrefix(ln, "VERIFWITNESS ") {
+			ws = append(ws, strings.TrimPrefix(ln, "VERIFWITNESS "))
+		}
+	}
+	if len(ws) == 0 {
+		return nil
+	}
+	c20WitnessMemo.res = &ReplayResult{Confirmed: true, Package: "test", Output: strings.Join(ws, "\n"),
+		Note: "no model replay (the counterexample is a behaviour of unknown callees); a search over scripted marshaler / hook / predicate behaviours on the real helpers found these inputs, on which the helper's reports differ from the oracle written from the property statement (or a panic escaped)",
+		TestFile: "govc/c20witness_test.go.txt (injected by -overlay as test/zz_verif_replay_test.go)"}
+	return c20WitnessMemo.res
 }
